@@ -42,6 +42,8 @@ class UnitRec(e8.SymRec):
                 byte = True
             x = x[1]
             x = _strip(x)
+        if v[0] == "proj" and x[0] == "call" and x[1] and x[1].endswith("Try>::branch") and x[2]:
+            x = _strip(x[2][0])          # `it.next()?`: the payload of Continue is the payload of the Some
         if v[0] == "proj" and x[0] == "call" and x[1]:
             if byte and x[1].endswith("::as_bytes"):
                 return "byte"
